@@ -142,6 +142,10 @@ pub trait HInput<'a>: Input<'a, Token: HTok, Span: HSpan> + Sized + 'a {
     fn any<E: HErr<'a, Self>>() -> Res<P<'a, Self, E>>;
     fn skip<E: HErr<'a, Self>>(n: usize) -> Res<P<'a, Self, E>>;
     fn lazy<E: HErr<'a, Self>>(a: P<'a, Self, E>) -> Res<P<'a, Self, E>>;
+    /// `(Padded ws a)`: needs `ValueInput` and `Token: text::Char`; built for str, slice, bytes
+    fn padded<E: HErr<'a, Self>>(_ws: &[u32], _a: P<'a, Self, E>) -> Res<P<'a, Self, E>> {
+        build::unsupported("Padded: built for the str / slice / bytes kinds only")
+    }
     fn nested_delims<E: HErr<'a, Self>>(cv: &Self::Conv, s: u32, e: u32, others: &[(u32, u32)]) -> Res<P<'a, Self, E>>;
     fn one_of<E: HErr<'a, Self>>(ts: &[u32]) -> Res<P<'a, Self, E>>;
     fn none_of<E: HErr<'a, Self>>(ts: &[u32]) -> Res<P<'a, Self, E>>;
@@ -335,6 +339,9 @@ fn elems_slice_range<T>(whole: &[T], part: &[T]) -> (Pos, Pos) {
 // ----- str: &str -----
 
 impl<'a> HInput<'a> for &'a str {
+    fn padded<E: HErr<'a, Self>>(ws: &[u32], a: P<'a, Self, E>) -> Res<P<'a, Self, E>> {
+        build::v_padded(ws, a)
+    }
     type Conv = Cur<&'a str>;
     fn pos(cv: &Self::Conv, raw: usize) -> Pos {
         str_pos(cv.get(), raw)
@@ -348,6 +355,9 @@ impl<'a> HInput<'a> for &'a str {
 // ----- slice: &[char]; bytes: &[u8] -----
 
 impl<'a> HInput<'a> for &'a [char] {
+    fn padded<E: HErr<'a, Self>>(ws: &[u32], a: P<'a, Self, E>) -> Res<P<'a, Self, E>> {
+        build::v_padded(ws, a)
+    }
     type Conv = Cur<&'a [char]>;
     fn pos(cv: &Self::Conv, raw: usize) -> Pos {
         index_pos(cv.get().len(), raw)
@@ -359,6 +369,9 @@ impl<'a> HInput<'a> for &'a [char] {
 }
 
 impl<'a> HInput<'a> for &'a [u8] {
+    fn padded<E: HErr<'a, Self>>(ws: &[u32], a: P<'a, Self, E>) -> Res<P<'a, Self, E>> {
+        build::v_padded(ws, a)
+    }
     type Conv = Cur<&'a [u8]>;
     fn pos(cv: &Self::Conv, raw: usize) -> Pos {
         index_pos(cv.get().len(), raw)
